@@ -88,6 +88,51 @@ def stop_persists(versions, fmts):
     return fn
 
 
+def start_change_stop(versions, fmts):
+    """start_persistence() (load + first scheduled save), a message that changes the state, then
+    stop(): the periodic schedule is cancelled and the file reproduces the final state."""
+    def fn(w):
+        version = w.pick(versions, "version")
+        fmt = w.pick(fmts, "format")
+        flavour = w.pick(["sync", "async"], "flavour")
+        fs = P.make_fs(w, fmt)
+        with fs.installed():
+            old = P.small_state(w, "old")
+            fs.files[P.fname(fmt)] = [("GOOD", old), True]
+            fs.cancel_sleep_at = 0  # asyncio: stop() cancels the task while it sleeps
+            g = P.pgateway(w, version, fmt, flavour)
+            w.info = {"version": version, "format": fmt, "flavour": flavour}
+            try:
+                P.run_sync_or_coro(w, w.call(g.gw.start_persistence))
+            except Exception as exc:
+                w.escaped(exc, "start_persistence raised")
+            w.check(w.eq(P.snapshot(g.gw.sensors), old), "start did not load the saved state")
+            nid = old[0][0]
+            child = w.fresh_int("new.child", 0, 254)
+            w.assume_fast(w.ne(child, old[0][1][7][0][0]))
+            line = C.structured_line(w, [nid, child, 0, 0, 6], "t")
+            try:
+                C.step_line(w, g, line)
+                P.run_sync_or_coro(w, w.call(g.gw.stop))
+            except Exception as exc:
+                w.escaped(exc, "message / stop raised")
+            final = P.snapshot(g.gw.sensors)
+            w.check(len(final[0][1][7]) == 2, "the child presentation was not recorded")
+            if flavour == "sync":
+                w.check(len(fs.timers) >= 1 and fs.timers[-1].cancelled,
+                        "stop() did not cancel the periodic save timer")
+            else:
+                w.check(len(fs.loop.tasks) == 1 and fs.loop.tasks[0].cancel_requested,
+                        "stop() did not cancel the periodic save task")
+            fs.after_crash(False)
+            g2 = P.pgateway(w, version, fmt, flavour)
+            w.call(g2.gw.tasks.persistence.safe_load_sensors)
+            w.check(w.eq(P.snapshot(g2.gw.sensors), final),
+                    "state after restart differs from the state at stop()")
+            w.goal("restarted")
+    return fn
+
+
 def build(tier):
     q = tier == "quick"
     shapes = [[], ["sleep", "awake"]] if q else [[], ["sleep", "awake"], ["awake", "sleep"],
@@ -102,6 +147,10 @@ def build(tier):
                 {"flavours": ["sync", "async"], "steps": ["stop()", "save tick"]},
                 goals=["stop", "tick"],
                 doc="stop()/tick from persisted-or-dirty: restart reproduces the projection"),
+        Harness("start-change-stop", start_change_stop(["1.4", "2.2"], ["json", "pickle"]),
+                {"flavours": ["sync", "async"], "history": "start_persistence, child presentation, "
+                 "stop()"}, goals=["restarted"],
+                doc="public API history: load + first tick, a change, stop(), restart"),
     ]
     return {
         "harnesses": hs,
